@@ -314,6 +314,50 @@ def r_merge_list_entries(ctx, repo):
     return rule
 
 
+def _named_classes_flowing_into(repo, f, name, _seen=None):
+    """names of package classes (written as such in the code of f) among the values that can flow into the local `name`:
+    through assignments, augmented assignments, loop iterables, list displays and concatenations.  Operands of isinstance /
+    issubclass tests are not values."""
+    seen = _seen if _seen is not None else set()
+    if name in seen:
+        return set()
+    seen.add(name)
+    local = {x.id for x in walk_function(f.node) if isinstance(x, ast.Name) and isinstance(x.ctx, ast.Store)} | set(f.params)
+    out = set()
+
+    def values(e):
+        if isinstance(e, ast.Call) and isinstance(e.func, ast.Name) and e.func.id in ('isinstance', 'issubclass', 'len', 'any', 'all'):
+            return
+        if isinstance(e, ast.Name):
+            if e.id in local:
+                out.update(_named_classes_flowing_into(repo, f, e.id, seen))
+            else:
+                r = repo.resolve_expr(f.module, e)
+                if r is not None and r.kind == 'class':
+                    out.add(e.id)
+            return
+        if isinstance(e, (ast.GeneratorExp, ast.ListComp, ast.SetComp)):
+            values(e.elt)
+            for g in e.generators:
+                values(g.iter)
+            return
+        for ch in ast.iter_child_nodes(e):
+            if isinstance(ch, ast.expr):
+                values(ch)
+    for x in walk_function(f.node):
+        if isinstance(x, ast.Assign) and any(isinstance(t, ast.Name) and t.id == name for t in x.targets):
+            values(x.value)
+        elif isinstance(x, ast.AugAssign) and isinstance(x.target, ast.Name) and x.target.id == name:
+            values(x.value)
+        elif isinstance(x, (ast.For, ast.comprehension)) and isinstance(x.target, ast.Name) and x.target.id == name:
+            values(x.iter)
+        elif isinstance(x, ast.Call) and isinstance(x.func, ast.Attribute) and isinstance(x.func.value, ast.Name) \
+                and x.func.value.id == name and x.func.attr in ('append', 'extend', 'insert', 'add', 'update'):
+            for a in x.args:
+                values(a)
+    return out
+
+
 # ------------------------------------------------------------------------------------------ R-METACLASS-OWN-TARGETS
 def r_metaclass_own_targets(ctx, repo):
     """Defining a YAMLObject subclass customises the loaders / dumper *that class* names.  Decided on the metaclass: every
@@ -352,6 +396,27 @@ def r_metaclass_own_targets(ctx, repo):
                           'the tables of classes it never mentioned' % (attr, norm(base)[:40]))
     if n < 2:
         raise AnalysisError('YAMLObjectMetaclass: only %d reads of yaml_loader / yaml_dumper found' % n)
+    # the receivers of the registrations are those attributes (or locals drawn from them), never a class named in the code
+    ADDS = ('add_constructor', 'add_multi_constructor', 'add_representer', 'add_multi_representer', 'add_implicit_resolver',
+            'add_path_resolver')
+    for f in c.methods.values():
+        local = {x.id for x in walk_function(f.node) if isinstance(x, ast.Name) and isinstance(x.ctx, ast.Store)} | set(f.params)
+        for x in A.func_calls(f.node):
+            if not (isinstance(x.func, ast.Attribute) and x.func.attr in ADDS):
+                continue
+            recv = x.func.value
+            if isinstance(recv, ast.Attribute) and recv.attr in ('yaml_loader', 'yaml_dumper'):
+                continue
+            if isinstance(recv, ast.Name) and recv.id in local:
+                # everything that flows into the local: no class named in the code among it
+                named = _named_classes_flowing_into(repo, f, recv.id)
+                if not named:
+                    continue
+                recv = ast.Name(id=', '.join(sorted(named)), ctx=ast.Load())
+            rule.fail('%s|named-target|%s' % (f.qualname, norm(recv)[:30]), f.module.rel, x.lineno, f.qualname, A.anon_text(x, f.node, 60),
+                      'the metaclass registers on %s, a class named in the library code rather than one the class being created names '
+                      'in yaml_loader / yaml_dumper: creating a YAMLObject subclass changes the table of a shipped class it did not '
+                      'ask for' % norm(recv)[:40])
     return rule
 
 
